@@ -369,6 +369,28 @@ PROPS["C05"] = dict(
 )
 
 
+PROPS["C20"] = dict(
+    level="model_checking",
+    technique="bounded symbolic execution of go/ssa (gosmt): the real Server.setup wiring, NodesManager.AddNode/RemoveNode, zero-group ready loop, trySnapshot, shared-group snapshot/processSnapshot and badgerWAL executed over every membership history, compaction point and restart in the bound; all choices are path decisions (no solver variables: verdict by exhaustive path enumeration of the symbolic executor)",
+    explanation="reduced claim (DESIGN.md section 5 C20): on one member, after every history of joins and removals with compaction of the zero group's log after any change, cluster.Conn.Nodes() lists exactly the acknowledged members with the announced addresses, and every restart on the same data directory (log replay or compacted snapshot) recovers the same list with the same addresses; the zero-group snapshot one member produces, installed on another member, teaches it every listed peer's address and no removed peer. Convergence of the other members' views through etcd/raft replication and the gRPC join handshake under message loss are not decided",
+    runs={
+        "quick": [
+            dict(pkg=".", entry="VerifC20Restart", bounds="lives=2,maxchanges=2", no_native=True, reach=["restarted", "end"]),
+            dict(pkg=".", entry="VerifC20Install", bounds="maxchanges=2", no_native=True, reach=["installed"]),
+        ],
+        "thorough": [
+            dict(pkg=".", entry="VerifC20Restart", bounds="lives=3,maxchanges=2", no_native=True, max_seconds=3000, reach=["restarted", "end"]),
+            dict(pkg=".", entry="VerifC20Restart", bounds="lives=2,maxchanges=3", no_native=True, reach=["restarted", "end"]),
+            dict(pkg=".", entry="VerifC20Install", bounds="maxchanges=3", no_native=True, reach=["installed"]),
+        ],
+    },
+    outside="clusters of more than one live member (replication of membership entries is etcd/raft's), the gRPC join handshake and message loss during it, restarts in the middle of a Ready (crash points inside the ready loop are C03/C06)",
+    assumptions=COMMON_ASSUME + ["the etcd raft node is a harness node that commits every proposal at once, re-delivers the stored entries after the snapshot on (re)start and appends the bootstrap membership entry on StartNode",
+                                 "net.Listen, grpc.NewServer and service registration are stubs; Badger is the API-level model with contents shared per Dir"],
+    no_native_replay=True,
+)
+
+
 def _c15(pid, tier, seed):
     import c15
     return c15.run(pid, tier, seed)
